@@ -116,15 +116,24 @@ def well_typed(tag, e):
     return True
 
 
+# a plain rule AFTER the classes that refers to the decoy rules: field names of a class must not leak into it
+AFTER = [('UsesXY', ('rule', None, ('seq', ('ref', 'x'), ('opt', ('ref', 'y')))))]
+
+
 def jobs(tier):
     inp = 'ab02;:4' if tier == 'quick' else 'ab012;:5'
     for tag, e, extra in programs(tier):
-        rules = [('start', ('rule', None, e))] + TMPL + list(extra)
+        rules = [('start', ('rule', None, e))] + TMPL + list(extra) + AFTER
         mods = [(tuple(rules), (), 'start', None, (), False, 'named', None)]
         if tag in ('where', 'apply', 'applyl', 'where-star', 'where-choice', 'where-opt', 'apply-choice'):
             yield {'mods': mods, 'inputs': 'ab01;:4', 'mode': 'simple', 'tag': tag, 'pyraise': True}
         elif tag == 'recursive':
             yield {'mods': mods, 'inputs': 'ab01(:%d' % (4 if tier == 'quick' else 5), 'mode': 'simple', 'tag': tag}
+        elif extra and extra[0][1][0] == 'class':
+            # (second entry point: the rule after the class, on a few inputs)
+            yield {'mods': mods, 'inputs': inp, 'mode': 'simple', 'tag': tag}
+            yield {'mods': mods, 'inputs': ['b', 'ba', 'a', ''], 'mode': 'simple', 'tag': tag + '/rule-after-class',
+                   'entries': [('UsesXY', None)]}
         else:
             yield {'mods': mods, 'inputs': inp, 'mode': 'simple', 'tag': tag}
 
